@@ -184,6 +184,9 @@ OuterLoop:
 				if size+txSize >= maxBytes {
 					// Push remaining transactions back to the queue
 					s.pendingTxs.Push(res.Data[i:], res.IDs[i:], res.Timestamp)
+					// the rest of this height is carried over in the queue: the scan position
+					// must move past the height, otherwise it is scanned and released again
+					nextDAHeight++
 					break OuterLoop
 				}
 				resp.Batch.Transactions = append(resp.Batch.Transactions, tx)
